@@ -1434,3 +1434,22 @@ pub fn debug_panics(prop: &str, seed: u64, from: u64, to: u64) {
         println!("{} x{} first run {}", k, n, first);
     }
 }
+
+pub fn debug_skips(prop: &str, seed: u64, from: u64, to: u64) {
+    use std::collections::BTreeMap;
+    let mut m: BTreeMap<String, (u64, u64)> = BTreeMap::new();
+    for idx in from..to {
+        let scen = generate(prop, seed, idx, true);
+        let ev = evaluate(&scen, false);
+        for r in &ev.res.records {
+            let e = m.entry(format!("{}/{}", scen.class, r.name)).or_insert((0, 0));
+            e.0 += 1;
+            if matches!(r.outcome, crate::exec::Outcome::Skipped) {
+                e.1 += 1;
+            }
+        }
+    }
+    for (k, (n, s)) in m {
+        println!("{:40} total {:6} skipped {:6}", k, n, s);
+    }
+}
